@@ -166,14 +166,16 @@ func renderMixed(rng *rand.Rand, s *settingSet) rendering {
 	return rendering{Argv: argv, Env: env}
 }
 
-var plainSafe = regexp.MustCompile(`^[A-Za-z/][A-Za-z0-9_/.-]*$`)
+// plainSafe: strings that are unambiguously string scalars when written plain
+// (README style: 0.0.0.0:9092, ldaps://ldap.example.com:636, path/to/tls.cert, 15s).
+var plainSafe = regexp.MustCompile(`^([A-Za-z/][A-Za-z0-9_/.:-]*[A-Za-z0-9_/.-]|[A-Za-z/]|\d+\.\d+\.\d+\.\d+:\d+|\d+[smh])$`)
 
 // yamlReserved: plain scalars that YAML 1.1/1.2 resolvers do not read as strings.
 var yamlReserved = map[string]bool{"true": true, "false": true, "null": true, "yes": true, "no": true, "on": true, "off": true,
 	"y": true, "n": true, "nan": true, "inf": true}
 
 // yamlString writes a string scalar in one of the three YAML styles; the
-// harness's own emitter (JSON-compatible double quotes, '' escaping in single
+// harness's own emitter (JSON-compatible double quotes, doubled apostrophes inside single
 // quotes), independent of the library that parses it.
 func yamlString(rng *rand.Rand, v string) string {
 	style := rng.IntN(3)
